@@ -71,6 +71,117 @@ def tsv_text(table, rng):
     return "\n".join(lines) + "\n"
 
 
+# ---- independent, randomised writers of SPARQL 1.1 Query Results JSON and XML (what other engines send)
+def _json_str(text, rng):
+    out = ['"']
+    for ch in text:
+        cp = ord(ch)
+        r = rng.random()
+        if ch in '"\\':
+            out.append("\\" + ch)
+        elif ch == "/" and r < 0.3:
+            out.append("\\/")
+        elif cp < 0x20 or cp == 0x7f:
+            short = {8: "\\b", 9: "\\t", 10: "\\n", 12: "\\f", 13: "\\r"}
+            out.append(short[cp] if cp in short and r < 0.6 else "\\u%04x" % cp)
+        elif cp > 0x7e and r < 0.4:
+            if cp > 0xFFFF:
+                cp -= 0x10000
+                out.append("\\u%04X\\u%04X" % (0xD800 + (cp >> 10), 0xDC00 + (cp & 0x3FF)))
+            else:
+                out.append("\\u%04X" % cp)
+        else:
+            out.append(ch)
+    return "".join(out) + '"'
+
+
+def json_text(table, rng):
+    ws = lambda: rng.choice(["", " ", "\n", "  ", "\t"])
+
+    def obj(pairs):
+        pairs = list(pairs)
+        rng.shuffle(pairs)
+        return "{" + ws() + ("," + ws()).join(_json_str(k, rng) + ws() + ":" + ws() + v for k, v in pairs) + ws() + "}"
+
+    def cell(t):
+        if t["k"] == "iri":
+            return obj([("type", '"uri"'), ("value", _json_str(t["v"], rng))])
+        if t["k"] == "bnode":
+            return obj([("type", '"bnode"'), ("value", _json_str(t["v"], rng))])
+        pairs = [("value", _json_str(t["v"], rng))]
+        if t.get("lang"):
+            pairs += [("type", '"literal"'), ("xml:lang", _json_str(t["lang"], rng))]
+        elif t.get("dt"):
+            pairs += [("type", rng.choice(['"literal"', '"literal"', '"typed-literal"'])), ("datatype", _json_str(t["dt"], rng))]
+        else:
+            pairs += [("type", '"literal"')]
+        return obj(pairs)
+    head = obj([("vars", "[" + ws() + ("," + ws()).join(_json_str(v, rng) for v in table["vars"]) + ws() + "]")] + ([("link", "[]")] if rng.random() < 0.2 else []))
+    rows = [obj([(v, cell(row[v])) for v in table["vars"] if v in row]) for row in table["rows"]]
+    results = obj([("bindings", "[" + ws() + ("," + ws()).join(rows) + ws() + "]")] + ([("ordered", "false"), ("distinct", "false")] if rng.random() < 0.2 else []))
+    return obj([("head", head), ("results", results)])
+
+
+def _xml_text(text, rng, attr=False):
+    out = []
+    for ch in text:
+        cp = ord(ch)
+        r = rng.random()
+        if ch == "&":
+            out.append("&amp;" if r < 0.7 else "&#38;")
+        elif ch == "<":
+            out.append("&lt;" if r < 0.7 else "&#x3C;")
+        elif ch == ">":
+            out.append("&gt;" if r < 0.6 else ">")
+        elif ch == '"' and (attr or r < 0.3):
+            out.append("&quot;")
+        elif ch == "\r" or (attr and ch in "\t\n"):
+            out.append("&#%d;" % cp)
+        elif cp > 0x7e and r < 0.3:
+            out.append("&#x%X;" % cp if r < 0.15 else "&#%d;" % cp)
+        else:
+            out.append(ch)
+    return "".join(out)
+
+
+def xml_text(table, rng):
+    pfx = rng.choice(["", "", "res:", "s:"])
+    ns = "http://www.w3.org/2005/sparql-results#"
+    decl = ('xmlns="%s"' % ns) if not pfx else ('xmlns:%s="%s"' % (pfx[:-1], ns))
+    q = lambda v: rng.choice(['"%s"', "'%s'"]) % v if "'" not in v and '"' not in v else '"%s"' % v
+    ws = lambda: rng.choice(["", "\n", "\n  ", " ", "\t"])
+
+    def cell(t):
+        if t["k"] == "iri":
+            return "<%suri>%s</%suri>" % (pfx, _xml_text(t["v"], rng), pfx)
+        if t["k"] == "bnode":
+            return "<%sbnode>%s</%sbnode>" % (pfx, t["v"], pfx)
+        attrs = ""
+        if t.get("lang"):
+            attrs = " xml:lang=" + q(t["lang"])
+        elif t.get("dt"):
+            attrs = " datatype=" + '"%s"' % _xml_text(t["dt"], rng, attr=True)
+        body = _xml_text(t["v"], rng)
+        if t["v"] and "]]>" not in t["v"] and "\r" not in t["v"] and rng.random() < 0.15:
+            body = "<![CDATA[" + t["v"] + "]]>"
+        if t["v"] == "" and rng.random() < 0.5:
+            return "<%sliteral%s/>" % (pfx, attrs)
+        return "<%sliteral%s>%s</%sliteral>" % (pfx, attrs, body, pfx)
+    out = [rng.choice(['<?xml version="1.0"?>\n', '<?xml version="1.0" encoding="UTF-8"?>\n', ""]), "<%ssparql %s>" % (pfx, decl), ws(), "<%shead>" % pfx]
+    for v in table["vars"]:
+        out += [ws(), "<%svariable name=%s/>" % (pfx, q(v))]
+    out += [ws(), "</%shead>" % pfx, ws(), "<%sresults>" % pfx]
+    for row in table["rows"]:
+        out += [ws(), "<%sresult>" % pfx]
+        names = [v for v in table["vars"] if v in row]
+        rng.shuffle(names)
+        for v in names:
+            out += [ws(), "<%sbinding name=%s>" % (pfx, q(v)), ws() if row[v]["k"] != "lit" or True else "", cell(row[v]), ws(), "</%sbinding>" % pfx]
+        out += [ws(), "</%sresult>" % pfx]
+    out += [ws(), "</%sresults>" % pfx, ws(), "</%ssparql>" % pfx, rng.choice(["", "\n"])]
+    return "".join(out)
+
+
 def replay(cfg, events):
     evs = []
     rng = random.Random(cfg.get("seed", 0))
@@ -98,6 +209,12 @@ def replay(cfg, events):
                 e["text"] = text
                 e["stage"] = "parse"
                 back = Result.parse(io.BytesIO(text.encode("utf-8")), format="tsv")
+                e["after"] = dump(back)
+            elif op in ("json_read", "xml_read"):
+                text = json_text(e["table"], rng) if op == "json_read" else xml_text(e["table"], rng)
+                e["text"] = text[:700]
+                e["stage"] = "parse"
+                back = Result.parse(io.BytesIO(text.encode("utf-8")), format="json" if op == "json_read" else "xml")
                 e["after"] = dump(back)
             elif op == "csv":
                 e["stage"] = "serialize"
